@@ -97,10 +97,12 @@ Inductive expr :=
 | EBe (w : nat) (a : expr)               (* binary.BigEndian.Uint16/32/64 (w = 2/4/8) *)
 | EAppend (a b : expr)                   (* append(a, b), one element *)
 | ELen64 (a : expr)                      (* math/bits.Len64 *)
+| ECompare (a b : expr)                  (* bytes.Compare: -1, 0, 1 *)
 | EHas (m k : expr)                      (* _, ok := m[k] for a set m (map[K]struct{}, K integer) *)
 | EMapEmpty                              (* map[string]T{} *)
 | EMapGet (m k : expr) (zero : value)    (* m[k] for a map[string]T, [zero] when absent *)
 | EMapHas (m k : expr)                   (* _, ok := m[k] for a map[string]T *)
+| EKeyOfInt (a : expr)                   (* the key of a map[uint8]T: the one-byte string *)
 | EMakeBytes (n : expr)                  (* make([]byte, n) *)
 | EMakeList (n : expr) (zero : value)    (* make([]T, n) *)
 | EMakeCap (n c : expr) (zero : value)   (* make([]T, n, c): panics unless 0 <= n <= c; the capacity is
@@ -121,6 +123,10 @@ Inductive stmt :=
 | SIf (c : expr) (t e : stmt)
 | SFor (id : nat) (c : expr) (post body : stmt)         (* init is emitted before the loop *)
 | SRange (id : nat) (k v : option nat) (e : expr) (body : stmt)
+| SRangeMap (id : nat) (k v : option nat) (intkey : bool) (m : expr) (body : stmt)
+    (* for k, v := range m over a map: the iteration order is chosen by the program's oracle
+       (call "map.order" on the list of keys; it must answer with a permutation of them);
+       theorems hold for every oracle, i.e. for every order.  The body must not write m. *)
 | SBreak (id : nat)
 | SContinue (id : nat)
 | SReturn (es : list expr)
@@ -315,6 +321,12 @@ Definition map_has_val (vm vk : value) : eres :=
   | _, _ => EStuck
   end.
 
+Definition compare_val (va vb : value) : eres :=
+  match va, vb with
+  | VStr a, VStr b => EV (VInt (match bcmp a b with Datatypes.Lt => -1 | Datatypes.Eq => 0 | Datatypes.Gt => 1 end))
+  | _, _ => EStuck
+  end.
+
 Fixpoint eval (e : env) (x : expr) {struct x} : eres :=
   match x with
   | EVar n => match nth_error e n with
@@ -375,8 +387,10 @@ Fixpoint eval (e : env) (x : expr) {struct x} : eres :=
                   end))
   | EMapEmpty => EV (VMap [])
   | EMapGet m k zero => ebind (eval e m) (fun vm => ebind (eval e k) (fun vk => map_get_val zero vm vk))
+  | EKeyOfInt a => ebind (eval e a) (fun va => match va with VInt z => EV (VStr [Z.to_N z]) | _ => EStuck end)
   | EMapHas m k => ebind (eval e m) (fun vm => ebind (eval e k) (fun vk => map_has_val vm vk))
   | EHas m k => ebind (eval e m) (fun vm => ebind (eval e k) (fun vk => has_val vm vk))
+  | ECompare a b => ebind (eval e a) (fun va => ebind (eval e b) (fun vb => compare_val va vb))
   | ELen64 a => ebind (eval e a) (fun va => match va with VInt z => EV (VInt (len64 z)) | _ => EStuck end)
   | EMakeBytes n => ebind (eval e n) (fun vn =>
                   match vn with
@@ -496,6 +510,42 @@ Fixpoint range_loop (run : env -> outcome) (id : nat) (k v : option nat)
       end
   end.
 
+(** range over a map *)
+Fixpoint map_keys (m : list (bytes * value)) : list bytes :=
+  match m with
+  | [] => []
+  | (k, _) :: m' => k :: filter (fun k' => negb (beqb k k')) (map_keys m')
+  end.
+Fixpoint nodupb (l : list bytes) : bool :=
+  match l with
+  | [] => true
+  | k :: l' => negb (existsb (beqb k) l') && nodupb l'
+  end.
+Definition perm_ok (l1 l2 : list bytes) : bool :=
+  Nat.eqb (length l1) (length l2) && forallb (fun k => existsb (beqb k) l2) l1 && nodupb l1.
+Fixpoint strs_of (vs : list value) : option (list bytes) :=
+  match vs with
+  | [] => Some []
+  | VStr s :: vs' => match strs_of vs' with Some l => Some (s :: l) | None => None end
+  | _ => None
+  end.
+Definition key_value (intkey : bool) (k : bytes) : value :=
+  if intkey then VInt (Z.of_N (nth 0 k 0%N)) else VStr k.
+Definition map_lookup (m : list (bytes * value)) (k : bytes) : value :=
+  match map_find k m with Some v => v | None => VUnset end.
+
+Fixpoint range_map_loop (run : env -> outcome) (id : nat) (kx vx : option nat) (intkey : bool)
+         (m : list (bytes * value)) (keys : list bytes) (e : env) : outcome :=
+  match keys with
+  | [] => ONormal e
+  | k :: rest =>
+      match loop_ctl id (run (set_opt vx (map_lookup m k) (set_opt kx (key_value intkey k) e))) with
+      | LNext e1 => range_map_loop run id kx vx intkey m rest e1
+      | LExit e1 => ONormal e1
+      | LProp o => o
+      end
+  end.
+
 (** * functions *)
 Fixpoint lookup_in (l : list (string * func)) (name : string) : option func :=
   match l with
@@ -591,6 +641,24 @@ Definition exec_step (rec : stmt -> env -> outcome) (p : prog) (s : stmt) (e : e
           | Some items => range_loop (rec body) id k v items 0 e
           | None => OStuck
           end
+      | EPanic => OPanic
+      | EStuck => OStuck
+      end
+  | SRangeMap id kx vx intkey mx body =>
+      match eval e mx with
+      | EV (VMap m) =>
+          match p_oracle p "map.order" [VList (map VStr (map_keys m))] with
+          | Some [VList vs] =>
+              match strs_of vs with
+              | Some keys =>
+                  if perm_ok keys (map_keys m)
+                  then range_map_loop (rec body) id kx vx intkey m keys e
+                  else OStuck
+              | None => OStuck
+              end
+          | _ => OStuck
+          end
+      | EV _ => OStuck
       | EPanic => OPanic
       | EStuck => OStuck
       end
